@@ -139,7 +139,15 @@ func genMultiFault(r vlib.Rnd) ([]byte, int) {
 	faults := 0
 	n := 2 + r.Intn(4)
 	for i := 0; i < n; i++ {
-		switch r.Intn(12) {
+		switch r.Intn(15) {
+		case 12: // a path repeating several parameters
+			fmt.Fprintf(&sb, "GET /o%d/{owner}/c/{cat}/f/{owner}/t/{cat}/u/{x}/{x}\n  200 any\n", i)
+			faults++
+		case 13: // several undefined tags / types on one directive
+			fmt.Fprintf(&sb, "GET /mt%d\n  Tags @zz%d @yy%d @xx%d\n  200\n    {\"a\": @ua%d, \"b\": @ub%d, \"c\": @uc%d}\n", i, i, i, i, i, i, i)
+			faults++
+		case 14: // long multi-line Description (CRLF handled by the caller's line-ending conversion)
+			fmt.Fprintf(&sb, "GET /d%d\n  Description\n    first line\n    second line\n\n    third line\n    fourth line\n    fifth line\n    sixth line\n    seventh line\n  200 any\n", i)
 		case 0: // self-pasting macro
 			fmt.Fprintf(&sb, "MACRO @sm%d\n  200 any\n  PASTE @sm%d\n", i, i)
 			faults++
@@ -192,7 +200,7 @@ var c06Stream = &vlib.Check{
 		switch r.Intn(5) {
 		case 0, 1:
 			doc, f := genMultiFault(r)
-			return &vlib.Case{Project: vlib.SingleFile(doc), Params: map[string]any{"faults": f}}
+			return &vlib.Case{Project: vlib.SingleFile(toEOL(doc, r)), Params: map[string]any{"faults": f}}
 		case 2:
 			return &vlib.Case{Project: genAccepted(r)}
 		default:
